@@ -83,7 +83,8 @@ SimStore ==
        tl \in R(Seqs(Lens, size)), rl \in R(Seqs(Lens, size)),
        pick \in R(Seqs(Orphans \cup {Fresh}, size)) :
       LET src == [i \in 1..size |-> IF \E j \in 1..(i - 1) : pick[j] = pick[i] THEN Fresh ELSE pick[i]] IN
-      Store(size, kinds, evs, revs, tl, rl, src)
+      \E shp \in R(ShapeChoices(size, kinds)) :
+        Store(size, kinds, evs, revs, tl, rl, src, shp)
 
 (* a restart between two writes (never two in a row, also in the middle of a reorg), for about every third step *)
 SimRestart == /\ Len(chain) > 0 /\ act.name # "Restart" /\ RandomElement(1..3) = 1
@@ -106,7 +107,7 @@ Emit ==
   /\ PrintT(ToJson(hist))
   /\ chain' = <<>>
   /\ db' = EmptyDB
-  /\ dead' = [blocks |-> {}, txs |-> {}] /\ ver' = 0 /\ memo' = NoMemo
+  /\ dead' = NoDead /\ ver' = 0 /\ memo' = NoMemo
   /\ act' = [name |-> "Init"] /\ res' = [k |-> "none"] /\ hist' = <<>>
 
 MBTNext == IF Len(chain) >= MaxBlocks /\ Reverts >= MaxReverts THEN Emit ELSE Step
